@@ -159,6 +159,13 @@ def run_cases(module: str, cases: list[dict], *, workers: int, case_timeout: flo
                         retried[0] += 1
                     todo.put((i, case))
                     continue
+                if record.get("died") and "memory limit" not in record["died"] and case.get("_died_retries", 0) < 1:
+                    # a worker that vanished once is tried again in a fresh process; only a repeat is reported
+                    case["_died_retries"] = 1
+                    with lock:
+                        retried[0] += 1
+                    todo.put((i, case))
+                    continue
                 if record.get("timeout"):
                     with lock:
                         hung[0] += 1
